@@ -71,6 +71,8 @@ struct World {
   long step_budget = 20000000;
   long sim_epoch = 1700000000;
   bool fd0_free = false;  // the caller closed stdin: the first descriptor the library opens is 0
+  int fd_limit = 0;       // > 0: the process may hold at most this many descriptors of its own (RLIMIT_NOFILE); a process that
+                          // closes what it opens never notices, one that leaks descriptors runs into EMFILE
   int sabotage = 0;  // canaries only: 1 = mremap moves but returns the stale address, 2 = output files lose their last byte
   std::vector<FileSpec> files;
 };
@@ -192,6 +194,7 @@ struct SimStats {
   long short_reads = 0;
   long sabotage_applied = 0;  // canaries: how often the simulated mremap actually handed back a stale address
   long transient_short_writes = 0;
+  long fd_limit_hits = 0;
 };
 SimStats &stats();
 // resources still held by real code at this moment (for leak counting at end of run)
